@@ -6,7 +6,10 @@ import CTV.Model.SigVerify
   vsct <kind> <nil> <hash> <sigalg> <R|-> <S|-> <prim> <sighex> <version> <ts> <etype> <cert> <ikh> <tbs> <ext> => ok | err | panic
   vsth <kind> <nil> <hash> <sigalg> <R|-> <S|-> <prim> <sighex> <version> <ts> <size> <root> => ok | err | panic
   sj <kind> <nil> <R|-> <S|-> <prim> <sighex> <parseok>             => ok | err | panic
-  nv <kind> <bits> <isP256> <allow>                                 => ok | err
+  nv <kind> <bits> <isP256> <allow> <nil>                           => ok | err | panic
+  vctutil <kind> <nil> <hash> <sigalg> <R|-> <S|-> <prim> <sighex> <bits> <isP256> <allow> <version> <ts> <etype> <cert> <ikh> <tbs> <ext> => ok | err | panic
+  vsctnil <kind> <version> <x509|precert|te>                        => err | panic
+  (<nil> = 0: a real key, 1: typed nil pointer, 2: pointer to the zero value)
   sctin <version> <ts> <etype> <cert> <ikh> <tbs> <ext>             => <hex> | err
   sthin <version> <ts> <size> <root>                                => <hex> | err
   der <sighex>                                                      => ok <r> <s> <resthex> | err
@@ -47,9 +50,9 @@ structure VArgs where
 
 def parseV : List String → Option (VArgs × List String)
   | k :: nl :: h :: a :: r :: s :: pb :: sg :: rest =>
-    match parseBool? nl, parseNat? h, parseNat? a, optInt r, optInt s, parseBool? pb, fromHex sg with
+    match parseNat? nl, parseNat? h, parseNat? a, optInt r, optInt s, parseBool? pb, fromHex sg with
     | some nl, some h, some a, some r, some s, some pb, some sg =>
-      some (⟨{ kind := kindOf k, isNil := nl }, ⟨h, a, sg⟩, r, s, pb⟩, rest)
+      some (⟨{ kind := kindOf k, isNil := nl == 1, hollow := nl == 2 }, ⟨h, a, sg⟩, r, s, pb⟩, rest)
     | _, _, _, _, _, _, _ => none
   | _ => none
 
@@ -94,9 +97,9 @@ where go : List String → String
       | _, _, _, _ => "bad-op"
     | _ => "bad-op"
   | ["sj", k, nl, r, s, pb, sg, pok] =>
-    match parseBool? nl, optInt r, optInt s, parseBool? pb, fromHex sg, parseBool? pok with
+    match parseNat? nl, optInt r, optInt s, parseBool? pb, fromHex sg, parseBool? pok with
     | some nl, some r, some s, some pb, some sg, some pok =>
-      let key : Key := { kind := kindOf k, isNil := nl }
+      let key : Key := { kind := kindOf k, isNil := nl == 1, hollow := nl == 2 }
       let needs := match Gen.signedJSONAlg.lookup key.kind.name with
         | some a => derCase a
         | none => false
@@ -105,11 +108,30 @@ where go : List String → String
         match newFromSignedJSON (prims pb) (fun _ => if pok then some () else none) key [] sg with
         | .ok _ => "ok" | .err => "err" | .panic => "panic"
     | _, _, _, _, _, _ => "bad-op"
-  | ["nv", k, bits, p256, allow] =>
-    match parseNat? bits, parseBool? p256, parseBool? allow with
-    | some bits, some p256, some allow =>
-      if newVerifier { kind := kindOf k, bits := bits, isP256 := p256 } allow then "ok" else "err"
-    | _, _, _ => "bad-op"
+  | ["nv", k, bits, p256, allow, nl] =>
+    match parseNat? bits, parseBool? p256, parseBool? allow, parseNat? nl with
+    | some bits, some p256, some allow, some nl =>
+      showOutcome (newVerifierOutcome { kind := kindOf k, bits := bits, isP256 := p256, isNil := nl == 1, hollow := nl == 2 } allow)
+    | _, _, _, _ => "bad-op"
+  | "vctutil" :: rest =>
+    match parseV rest with
+    | some (v, [bits, p256, allow, ver, ts, et, cert, ikh, tbs, ext]) =>
+      match parseNat? bits, parseBool? p256, parseBool? allow, parseNat? ver, parseNat? ts, parseNat? et, fromHex cert, fromHex ikh, fromHex tbs, fromHex ext with
+      | some bits, some p256, some allow, some ver, some ts, some et, some cert, some ikh, some tbs, some ext =>
+        let key : Key := { v.key with bits := bits, isP256 := p256 }
+        guarded v (derCase v.ds.sigAlg && newVerifierOutcome key allow == .ok) fun _ =>
+          showOutcome (ctutilVerifySCT (prims v.bit) key allow ⟨ver, [], UInt64.ofNat ts, ext, v.ds⟩ (entryOf et cert ikh tbs))
+      | _, _, _, _, _, _, _, _, _, _ => "bad-op"
+    | _ => "bad-op"
+  | ["vsctnil", k, ver, which] =>
+    match parseNat? ver with
+    | some ver =>
+      let a : Option EntryArg := if which = "x509" then some .nilX509 else if which = "precert" then some .nilPrecert
+        else if which = "te" then some .nilTimestampedEntry else none
+      match a with
+      | some a => showOutcome (verifySCTArg (prims false) { kind := kindOf k } ⟨ver, [], 0, [], ⟨4, 3, []⟩⟩ a)
+      | none => "bad-op"
+    | none => "bad-op"
   | ["sctin", ver, ts, et, cert, ikh, tbs, ext] =>
     match parseNat? ver, parseNat? ts, parseNat? et, fromHex cert, fromHex ikh, fromHex tbs, fromHex ext with
     | some ver, some ts, some et, some cert, some ikh, some tbs, some ext =>
